@@ -35,7 +35,7 @@ K_LAW = 8           # determinant laws on general doubles: K_LAW * eps * permane
 KAPPA_MAX = 10 ** 8
 # clauses that wait for a decision of the integrator (a patch applied to /repo or a known-finding entry): while an id is
 # listed here its clause is only counted (evidence: input_distribution 'pending-<id>'); LP_ASSUME_FIXED=<id,...> makes it strict
-PENDING = {"P1"}
+PENDING = set()          # P1 decided: known finding C05-laplace-cancellation
 
 
 def pending(pid):
